@@ -40,6 +40,15 @@ CHECKS = {
     "C14": ("fault_enumeration", "containment monitor: no exception may escape five public operations fed enumerated malformed-but-checksum-valid responses; good-frame-applied oracle on mixed exchanges",
             "All body/raw truncation lengths of every response kind, count/size bytes 0..255, records pointing past the end, every property/capability value, ids 0..255 x 6 frame types, random bodies, mixes of good and bad frames incl. unsolicited 0xB5 frames around a capability reply.",
             "Frames are delivered in authentic V2 packets; transport-level malformation belongs to C09.", "DESIGN.md section 2 C14"),
+    "C06": ("fault_enumeration", "fault enumeration of the handshake reply against the real client + wire-log / stored-credential / follow-up-exchange oracles on a simulated V3 device",
+            "Per random (token,key,nonce) triple: all 512 proof bit flips, reply lengths 0..80, all type nibbles, error/encrypted packets, foreign-key proofs, header/counter bit flips; genuine replies verified by an encrypted exchange the device accepts.",
+            "Trusts mv/ref/v3.py (proof = AES-CBC_K(nonce) || SHA256(nonce), session key nonce XOR K). Failed re-authentication on a live authenticated connection is not judged.", "DESIGN.md section 2 C06"),
+    "C09": ("exploration", "containment monitor: allowed-exception-set oracle per entry point under a byte-level adversarial simulated peer (grammar-aware mutation of V2/V3 traffic)",
+            "Structured catalogues (length-field boundaries, signed garbage ciphertext, type nibbles x phases, pad nibbles, sizes, truncations) plus seeded random mutation, across LAN.send, LAN.authenticate, Device.authenticate, Device._send_command and AirConditioner.refresh.",
+            "The peer controls bytes only; exceptions inside protocol callbacks are recorded, judged only through what escapes the entry point.", "DESIGN.md section 2 C09"),
+    "C15": ("exploration", "metamorphic runtime oracle on the real capability parser (whole list vs in-order merge of single records) and paging invariance through get_capabilities() for every split point",
+            "Every known capability id x every value between sentinel records, temperature records of sizes 0..10 at every position, unknown/zero-size/odd-size records, random lists of <= 12 records; every split point across two responses.",
+            "Only well-formed lists are judged; single-record interpretations come from the real parser (no value tables in the oracle).", "DESIGN.md section 2 C15"),
 }
 
 NOT_YET = "check not built yet in this round (planned in DESIGN.md section 2)"
